@@ -5,7 +5,7 @@ OPTS = [dict(p_defect=0.35), dict(p_defect=0.2, p_rel=1.0, p_nested=0.3), dict(p
 
 
 def run(rep):
-    core_check(rep, "C11", [dict(o) for o in OPTS], 260, 5000, nontrivial_key="impl_designs", cyc_quick=32, cyc_thorough=64)
+    core_check(rep, "C11", [dict(o) for o in OPTS], 160, 5000, nontrivial_key="impl_designs", cyc_quick=32, cyc_thorough=64)
     rep.coverage["rule"] = ("random designs from vlib/coregen.py's grammar built with the real API, every valuation of the "
                             "control inputs (or random ones when there are many), both directions bound by TxnCoreTrace; "
                             "clause RaisedIffIllFormed: elaboration raised <=> TxnCore!VerdictD(design) # ok, for generated designs incl. deliberately defective ones and their repaired neighbours; distinct_nontrivial = designs judged")
